@@ -140,6 +140,8 @@ func init() {
 	add("c14-seq-lockstep", "C14.seq", xmlGo,
 		"f(k, \"\")\n\t\t\t\t\t\t\tn.Nodes = append(n.Nodes, nn)\n\t\t\t\t\t\t\torderNames = append(orderNames, k)\n\t\t\t\t\t\t\torderSeqs = append(orderSeqs, nseq)\n",
 		"f(k, \"\")\n\t\t\t\t\t\t\tn.Nodes = append(n.Nodes, nn)\n\t\t\t\t\t\t\torderNames = append(orderNames, k)\n\t\t\t\t\t\t\t_ = nseq\n", "|lockstep#")
+	add("c14-seq-unstable", "C14.seq", xmlGo, "sortx.ProxyStable(orderNames, n.Nodes,", "sortx.ProxySort(orderNames, n.Nodes,", "|stable#")
+	add("c14-seq-unstable-impl", "C14.seq", "internal/sortx/proxysort.go", "sort.Stable(proxySort[Tae, Ta, Tbe, Tb]{a: a, b: b, fn: fn})", "sort.Sort(proxySort[Tae, Ta, Tbe, Tb]{a: a, b: b, fn: fn})", "stable-impl")
 	add("c14-seq-flag-set", "C14.seq", xmlGo, "\t\t\t\t\thasSeq = true\n", "\t\t\t\t\thasSeq = false\n", "|flag-set#")
 	// C14.json
 	add("c14-json-resume", "C14.json", cj, "\t\t\ti++\n\t\t\tstart = i\n\t\t\tcontinue\n\t\t}\n\t\tc, size", "\t\t\tstart = i\n\t\t\ti++\n\t\t\tcontinue\n\t\t}\n\t\tc, size", "|resume#")
